@@ -22,7 +22,7 @@ from __future__ import annotations
 
 import json
 from dataclasses import asdict
-from datetime import datetime
+from datetime import datetime, timezone
 from pathlib import Path
 from typing import IO, Optional, Dict, Any
 import logging
@@ -85,7 +85,10 @@ class JsonlTraceDriver(TraceDriver):
     def _now_timestamp(self) -> str:
         """Generate RFC3339 timestamp with millisecond precision and UTC 'Z'."""
         return (
-            datetime.now().replace(tzinfo=None).isoformat(timespec="milliseconds") + "Z"
+            datetime.now(timezone.utc)
+            .replace(tzinfo=None)
+            .isoformat(timespec="milliseconds")
+            + "Z"
         )
 
     def _next_seq(self) -> int:
